@@ -5,6 +5,7 @@ sys.path.insert(0, os.path.dirname(os.path.dirname(os.path.abspath(__file__))))
 from gosym.runner import Check, load_program
 from checks.tcheck import run_property
 import checks.oracles as O
+from gosym import replay
 
 OPNAME = {'PruneDeletedTopics': 'prune_deleted_topics', 'PruneDeletedSubscriptions': 'prune_deleted_subscriptions', 'PruneCompletedMessages': 'prune_completed_messages',
           'PruneDeletedSubscriptionDeliveries': 'prune_deleted_subscription_deliveries', 'PruneExpiredDeliveries': 'prune_expired_deliveries',
@@ -148,10 +149,100 @@ def convergence_mixed(chk, prog):
             setup=world.setup, max_paths=300000)
 
 
+def convergence_reused_actions(chk, prog):
+    """the background services build every job's action object once and execute that same object round after round: rows that die after
+    the first round (dead for longer than the threshold only at a later instant) are reclaimed by the later rounds of the same objects"""
+    import z3
+    from gosym.core import And, Or, Not, Implies
+    from gosym import reldb, world, stdlib
+    from gosym.world import A
+    from gosym.stdlib import new_context
+    import checks.transitions as tr
+    sizes = {'Topic': 1, 'Subscription': 1, 'Message': 1, 'Delivery': 1}
+    JOBS = [('NewPruneCompletedDeliveries', 'PruneCompletedDeliveries'), ('NewPruneExpiredDeliveries', 'PruneExpiredDeliveries'),
+            ('NewPruneDeletedSubscriptionDeliveries', 'PruneDeletedSubscriptionDeliveries'), ('NewPruneCompletedMessages', 'PruneCompletedMessages'),
+            ('NewPruneDeletedSubscriptions', 'PruneDeletedSubscriptions'), ('NewPruneDeletedTopics', 'PruneDeletedTopics')]
+
+    def harness(ex, ob):
+        db = reldb.sym_db(ex, prog, sizes, exists=None)
+        age = z3.Int('min_age')
+        ex.assume(z3.And(age >= 0, age <= 10**15))
+        p = tr.params(ex, 'PruneCommonParams', MinAge=age, MaxDelete=100)
+        acts = [(typ, ex.call_named(A + ctor, [p])) for ctor, typ in JOBS]
+        init = db.snapshot()
+        errors = [0]
+
+        def round_():
+            for typ, act in acts:
+                snap = db.snapshot()
+                tx = reldb.begin_tx(ex, db)
+                err = ex.call_named('(*' + A + typ + ').Execute', [act, new_context(ex), tx])
+                if err is not None:
+                    db.restore(snap)
+                    errors[0] += 1
+        t0 = stdlib.time_now(ex, [], '')
+        round_()
+        t1 = stdlib.time_now(ex, [], '')         # an arbitrary later instant: what is dead "now" need not have been dead in round one
+        old = t1 - age - 2 * 10**9
+        far = t1 + 3600 * 10**9
+        T, S, M, D = init['Topic'], init['Subscription'], init['Message'], init['Delivery']
+        tdead = [And(Not(t.isnull('deleted_at')), t.v['deleted_at'] <= old) for t in T]
+        sdead = [And(Not(s_.isnull('deleted_at')), s_.v['deleted_at'] <= old) for s_ in S]
+        ddead = [Or(And(Not(d.isnull('completed_at')), d.v['completed_at'] <= old), d.v['expires_at'] < old) for d in D]
+        for t, dead in zip(T, tdead):
+            ex.assume(Implies(t.exists, Or(dead, t.isnull('deleted_at'))))
+        for s_, dead in zip(S, sdead):
+            ex.assume(Implies(s_.exists, Or(dead, s_.isnull('deleted_at'))))
+        for m in M:
+            ex.assume(Implies(m.exists, m.v['published_at'] <= old))
+        for d, dead in zip(D, ddead):
+            ex.assume(Implies(d.exists, Or(dead, And(d.isnull('completed_at'), d.v['expires_at'] > far))))
+        d_rec = [And(d.exists, Or(dead, *[And(s_.exists, ex.eq(s_.v['id'], d.v['subscription_id']), sd) for s_, sd in zip(S, sdead)])) for d, dead in zip(D, ddead)]
+        m_rec = [And(m.exists, *[Implies(And(d.exists, ex.eq(d.v['message_id'], m.v['id'])), dr) for d, dr in zip(D, d_rec)]) for m in M]
+        s_rec = [And(s_.exists, sd, *[Implies(And(d.exists, ex.eq(d.v['subscription_id'], s_.v['id'])), dr) for d, dr in zip(D, d_rec)]) for s_, sd in zip(S, sdead)]
+        t_rec = [And(t.exists, td, *([Implies(And(s_.exists, ex.eq(s_.v['topic_id'], t.v['id'])), sr) for s_, sr in zip(S, s_rec)] +
+                                     [Implies(And(m.exists, ex.eq(m.v['topic_id'], t.v['id'])), mr) for m, mr in zip(M, m_rec)])) for t, td in zip(T, tdead)]
+        for _ in range(3):
+            round_()
+        nows = stdlib.clock(ex)['nows']
+        ex.assume(nows[-1] - t1 < 2 * 10**9)        # the later rounds take under two seconds of clock time (nothing live dies meanwhile)
+        # replayable counterexamples: no stored instant within a minute of either cutoff, the rounds well apart
+        stamps = [r.v[c] for e_, cs in (('Topic', ['deleted_at']), ('Subscription', ['deleted_at']), ('Message', ['published_at']), ('Delivery', ['completed_at', 'expires_at']))
+                  for r in init[e_] for c in cs]
+        ex.env['small_model'] = [z3.BoolVal(True)]
+        # (a few seconds between the first and the later rounds, so that the replay can really wait instead of moving the data in time)
+        ex.env['replay_margins'] = lambda ex_, gap=None: [t1 - t0 >= 4 * 10**9, t1 - t0 <= 6 * 10**9] + \
+            [z3.Or(v <= c - 15 * 10**8, v >= c + 15 * 10**8) for v in stamps for c in (t0 - age, t1 - age, t0, t1)]
+        desc = lambda m: {'job_errors': errors[0], 'first round at': replay.mval(m, t0), 'later rounds from': replay.mval(m, t1)}
+
+        def mk_rp(e, i, rec):
+            def rp(m, dsc):
+                rows = replay.rows_from_model(m, db.schema, init)
+                a = replay.mval(m, age)
+                b0, b1 = replay.mval(m, t0), replay.mval(m, t1)
+                scn = {'base_now': str(b0), 'rows': rows,
+                       'ops': [{'op': 'prune_rounds_reused', 'jobs': [OPNAME[typ] for typ, _ in acts], 'rounds': 3, 'min_age': str(a), 'max_delete': 100,
+                                'shift_after_first': str(max(0, b1 - b0))}]}
+                out = replay.run_scenarios([scn])[0]
+                path = replay.save_scenario('C15', 'reused-actions-%s%d' % (e.lower(), i), scn, dsc)
+                if 'error' in out:
+                    raise RuntimeError(out['error'][-400:])
+                if replay.mval(m, zb(rec)) is not True:
+                    return False, path
+                rid = replay.uuid_str(replay.mval(m, init[e][i].v['id']))
+                return any(x['id'] == rid for x in out['post'].get(e) or []), path
+            return rp
+        for e, recs in (('Topic', t_rec), ('Subscription', s_rec), ('Message', m_rec), ('Delivery', d_rec)):
+            for i, rec in enumerate(recs):
+                ob.verify(ex, 'late-dead-%s-is-reclaimed-by-the-same-action-objects[%d]' % (e.lower(), i), Implies(rec, Not(db.t[e][i].exists)), desc, replay=mk_rp(e, i, rec))
+    chk.run('convergence:same-action-objects-every-round', prog, harness, bounds=dict(sizes, rounds='1 + 3', order='children first'), setup=world.setup, max_paths=300000)
+
+
 if __name__ == '__main__':
     chk = Check('C15')
     prog = load_program()
     run_property(chk, prog, lambda T: ([O.c15_prune, O.c01_frame] + ([O.c14_expire] if T.kind == 'expire-subs' else [])) if T.kind in ('prune', 'expire-subs') else [])
     convergence(chk, prog)
     convergence_mixed(chk, prog)
+    convergence_reused_actions(chk, prog)
     chk.finish()
